@@ -338,6 +338,8 @@ def c17(tier, seed):
         {'line': "alias n=\"./pargs 'a b'\"; n", 'files': P, 'expect_stdout': _argv(['a b']), 'area': 'alias:inner-quotes'},
         {'line': "alias n='./pargs a | cat'; n", 'files': P, 'expect_stdout': _argv(['a']), 'area': 'alias:pipe-in-value'},
         {'line': "alias my-n.1_x='./pargs ok'; my-n.1_x", 'files': P, 'expect_stdout': _argv(['ok']), 'area': 'alias:name-charset'},
+        {'line': "alias up='tr a-z A-Z'; alias hi='echo hello'; alias hi | up; alias cnt='wc -l'; alias | cnt", 'files': P, 'expect_stdout': "ALIAS HI='ECHO HELLO'\n3\n", 'area': 'alias:stage-after-the-alias-builtin'},
+        {'line': "alias srt='sort|uniq'; alias te='true|./pargs'; printf 'b\\na\\nb\\n' | srt; te hi", 'files': P, 'expect_stdout': 'a\nb\n' + _argv(['hi']), 'area': 'alias:value-without-a-blank-is-still-a-command-line'},
         {'line': "alias ll='./pargs a'; alias LL='./pargs b'; alias | sort; ll; LL", 'files': P, 'expect_stdout': "alias LL='./pargs b'\nalias ll='./pargs a'\n" + _argv(['a']) + _argv(['b']), 'area': 'alias:names-differing-in-case'},
         {'line': "alias n=; unalias n; echo rc=$?; alias", 'files': P, 'expect_stdout': 'rc=0\n', 'area': 'alias:unalias-empty-value'},
         {'line': "alias -x='./pargs hi'; alias -x; alias x-y='./pargs yo'; alias x-y; alias .z='./pargs zz'; alias .z", 'files': P,
@@ -372,12 +374,25 @@ def c19(tier, seed):
              ('(1.5 + 1) * 2', '5'), ('2 * (0.25 + 0.25)', '1'), ('(7.0) / 2', '3.5'), ('((1.5)) + 1', '2.5'), ('1 + (2 * (3 + 0.5))', '8'),
              ('1.5 + 1', '2.5'), ('7.0 / 2', '3.5'), ('2 * 1.25', '2.5'), ('1 / 2.0', '0.5'), ('2.0 ^ 3', '8'), ('0.5 + 0.25', '0.75'),
              ('2147483648 + 2147483648', '4294967296'), ('9223372036854775807 + 0', '9223372036854775807'), ('1+2', '3'), ('  1   +   2  ', '3'),
-             ('+1 + 2', '3'), ('-1 + 2', '1'), ('(+3) * 2', '6')]
+             ('+1 + 2', '3'), ('-1 + 2', '1'), ('(+3) * 2', '6'),
+             # IEEE double: a whole exponent beyond the i32 range is still an exponent; pow, not repeated multiplication
+             ('-1.0 ^ 2147483648', '1'), ('-1.0 ^ 2147483649', '-1'), ('1.1 ^ 70', '789.7469567994436'), ('1.0000000001 ^ 10000000000', '2.7182820532347876'), ('2.0 ^ 0.5', '1.4142135623730951')]
     out = [{'line': l, 'expect_stdout': e + '\n', 'area': 'calculator:precedence', 'timeout': 5} for l, e in cases]
     for l in ('1 / 0', '9223372036854775807 + 1', '2 ^ 64', '99999999999999999999 + 1', '2 ^ (0 - 1)', '1 / 0.0', '(0 - 9223372036854775807 - 1) / (0 - 1)',
               '9223372036854775807 * 2', '1 +', '(1 + 2', '1 + 2)', '2 ^ 70', '0 ^ 0', '1.0 / 0',
               '170141183460469231731687303715884105728 - 1', '340282366920938463463374607431768211456 + 0', '-170141183460469231731687303715884105729 + 1'):
         out.append({'line': l + '; echo alive', 'expect_stdout_last_line': 'alive', 'area': 'calculator:never-crashes', 'timeout': 5})
+    # the classification rule: digits, dots, blanks and parentheses alone are not arithmetic (an operator is needed) -- such a line is a command
+    out.append({'line': '1.5; echo rc=$?; 7.1; (2.5); echo rc=$?; 10.0.0.1; echo rc=$?; 12; echo rc=$?', 'files': {'7.1': '#!/bin/sh\necho ran71\n', '12': '#!/bin/sh\necho ran12\n'},
+                'expect_stdout': 'rc=127\nran71\nrc=127\nrc=127\nran12\nrc=0\n', 'area': 'calculator:classification:no-operator', 'timeout': 5})
+    alpha_ = ['1', '.', ' ', '(', ')', '+', '/']
+    for k_ in (1, 2, 3):
+        for t_ in itertools.product(alpha_, repeat=k_):
+            s_ = ''.join(t_)
+            if any(ch in s_ for ch in '+/') or not any(ch == '1' for ch in s_) or s_.strip() != s_ or '(' in s_ or ')' in s_:
+                continue
+            # only digits, dots and inner blanks: never arithmetic -> "command not found", status 127
+            out.append({'line': s_ + '; echo rc=$?', 'expect_stdout': 'rc=127\n', 'area': 'calculator:classification:no-operator', 'timeout': 5})
     # the result cannot be written (stdout full or closed): a diagnostic and a non-zero status, the shell goes on
     out.append({'line': '{CICADA} -c "1 + 2; echo next" > /dev/full; echo rc=$?; {CICADA} -c "2 * 3" >&-; echo rc=$?', 'expect_stdout': 'rc=1\nrc=1\n',
                 'area': 'calculator:never-crashes:stdout-cannot-be-written', 'timeout': 5})
@@ -540,6 +555,7 @@ def c09(tier, seed):
         {'line': 'export C="p ~ q"; printenv C; export F="~/q"; printenv F; export G=a~/b; printenv G; export D=~/x; ./pargs "$D" "$HOME/x"', 'files': F, 'expect_stdout_prefix': 'p ~ q\n~/q\na~/b\n', 'area': 'vars:export-value-with-a-tilde'},
         {'line': 'read a b <<< "x   y    z  "; ./pargs "$a" "$b"; IFS=: read a b <<< x:y:z; ./pargs "$a" "$b"; IFS=: read a b c <<< "1::3:4"; ./pargs "$a" "$b" "$c"; read r <<< "  p   q "; ./pargs "$r"', 'files': F,
          'expect_stdout': _argv(['x', 'y    z']) + _argv(['x', 'y:z']) + _argv(['1', '', '3:4']) + _argv(['p   q']), 'area': 'read:the-remainder-is-the-rest-of-the-line-as-it-stands'},
+        {'line': "A='a b'; A=; ./pargs \"[$A]\"; export B=x=y; B= printenv B; B=; printenv B; E=; C=$E; ./pargs \"$C\"", 'files': F, 'expect_stdout': _argv(['[]']) + '\n\n' + _argv(['']), 'area': 'vars:empty-value'},
         {'line': 'export B=old; read A B <<< "one two three"; printenv B; ./pargs "$A" "$B"', 'files': F, 'expect_stdout': 'two three\n' + _argv(['one', 'two three']), 'area': 'read:into-an-exported-name'},
         {'line': 'read a b c <<< "1 2 3 4"; ./pargs "$a" "$b" "$c"', 'files': F, 'expect_stdout': _argv(['1', '2', '3 4']), 'area': 'read'},
         {'line': 'read a b <<< "1"; ./pargs "[$a]" "[$b]"', 'files': F, 'expect_stdout': _argv(['[1]', '[]']), 'area': 'read'},
@@ -644,6 +660,7 @@ def c15(tier, seed):
         {'script': 'for x in a b\n    ./st $x 3\n    break\ndone\n', 'files': F, 'expect_stdout': 'a\n', 'expect_rc': 3, 'area': 'script:status:loop-with-break'},
         {'script': './st z 0\nfor x in a b\n    ./st $x 4\ndone\n', 'files': F, 'expect_stdout': 'z\na\nb\n', 'expect_rc': 4, 'area': 'script:status:loop'},
         {'script': 'function g {\n    ./st g 2\n}\nfunction h() {\n    g\n}\nh\necho "st=$?"\n', 'files': F, 'expect_stdout': 'g\nst=2\n', 'area': 'function:nested-status'},
+        {'script': 'function f() { \n    echo in-f\n}\t\n  function g {  \n    echo in-g $1\n  }  \nf\ng x\n', 'files': F, 'expect_stdout': 'in-f\nin-g x\n', 'area': 'function:blanks-around-the-header-and-the-closing-brace'},
         {'script': './pargs `echo $2` $(echo $1) "`echo $1`" x`echo $2`y\nfunction f() {\n    ./pargs `echo $1$0`\n}\nf q\n', 'args': ['AA', 'BB'], 'files': F,
          'expect_stdout': _argv(['BB', 'AA', 'AA', 'xBBy']) + _argv(['qf']), 'area': 'script:arguments:inside-a-backquoted-command'},
         {'script': 'set -e\nif ./st t 1\n    echo no\nfi\necho after\nwhile ./st w 1\n    echo no\ndone\nif ./st u 1\n    echo no\nelse\n    echo else\nfi\nif ./st v 2\n    echo no\nfi\n', 'files': F,
@@ -739,6 +756,8 @@ def c01(tier, seed):
     for line, exps in (('./pargs a\\ ', [['a ']]), ('./pargs a\\ ; ./pargs b', [['a '], ['b']]), ('./pargs \\ ', [[' ']]), ('./pargs a\u3000', [['a\u3000']]),
                        ('  ./pargs q   &&   ./pargs r  ', [['q'], ['r']]), ('./pargs a\\\\ ', [['a\\']])):
         out.append({'line': line, 'files': {'pargs': PARGS}, 'expect_stdout': ''.join(_argv(e) for e in exps), 'area': 'argv:escaped:blank-at-the-end', 'timeout': 5})
+    # `?` and `[` are ordinary characters of an argument (the only wildcard is `*`), escaped or not
+    out.append({'line': './pargs x a\\? a? \\[ab] y', 'files': {'pargs': PARGS, 'ab': '', 'ac': ''}, 'expect_stdout': _argv(['x', 'a?', 'a?', '[ab]', 'y']), 'area': 'argv:escaped:not-a-wildcard', 'timeout': 5})
     # what an escaped character does to its word ends with that word -- whatever the word ends in
     for first, exp1 in (('\\*"x"', '*x'), ("\\>'y'", '>y'), ('\\~"/q"', '~/q'), ('\\{"a,b}"', '{a,b}')):
         out.append({'line': 'V=val; ./pargs ' + first.replace('\\\\', '\\') + ' af* $V ~ {1,2}', 'files': {'pargs': PARGS, 'afile': ''},
@@ -752,7 +771,7 @@ def c05(tier, seed):
     n = 3 if tier == 'quick' else 4
     fixed = ['> f', '<', '2>&1', 'ls | > f', 'echo $(echo >)', 'echo {2147483646..2147483647}', '99999999999999999999 + 1', '2 ^ 64', '2 ^ -1',
              'echo `', 'echo $(', 'echo ${', 'echo "', "echo '", 'a=', '=a', 'A="', "B='", 'export C="', "export D='", 'A="" B=\'\'', "alias e=' '; e; echo after", "alias nop='# nothing'; nop x | cat", '\\ ', 'echo a;\\ ;echo b', 'true&&\\\\\\ ',
-             '170141183460469231731687303715884105728 - 1', '-170141183460469231731687303715884105729 + 1', 'echo ' + '{' * 40 + 'a,b}', 'echo ' + '{' * 200 + 'a,b}' + '}' * 100, 'echo ' + '{a,' * 60, 'cd a b', 'alias', 'unalias', 'export', 'source', 'fg', 'bg', 'exec', 'exit x; echo no',
+             '170141183460469231731687303715884105728 - 1', '-170141183460469231731687303715884105729 + 1', 'echo {9223372036854775806..9223372036854775807}', 'echo x{-9223372036854775807..-9223372036854775808}y', 'echo $(A=1)', 'echo a$( )b', 'X=`B=2 C=3`', 'echo ' + '{' * 40 + 'a,b}', 'echo ' + '{' * 200 + 'a,b}' + '}' * 100, 'echo ' + '{a,' * 60, 'cd a b', 'alias', 'unalias', 'export', 'source', 'fg', 'bg', 'exec', 'exit x; echo no',
              '(', ')', '((', '))', '{', '}', '$', '$$$', '\\', '&&', '||', ';;', '| |', '& &', 'echo {1..}', 'echo {..1}', 'echo {a..b}', 'echo {1..2..0}',
              '1 +', '+ 1', '1 / 0', '(1', '1)', '2 ^ 99999', '1.5.5 + 1', 'é' * 50, 'echo ' + 'a' * 5000, 'echo ' + ' '.join(['x'] * 500)]
     allc = [''.join(t) for k in range(1, n + 1) for t in itertools.product(alpha, repeat=k)]
